@@ -198,6 +198,32 @@ fn c18_stark_malformed() {
         }
     }
     }
+    // the verifier that is handed the FRI parameters of a (larger) recursive verifier circuit: the same rule, on proofs proved for those parameters
+    for (n, vbits) in [(32usize, 30usize), (64, 14), (8, 6), (256, 10), (1024, 10)] {
+        let config = StarkConfig::standard_fast_config();
+        let vparams = config.fri_params(vbits);
+        let padded_len = 1usize << (vparams.degree_bits - vparams.reduction_arity_bits.iter().sum::<usize>());
+        let stark = Fib::<F, D> { num_rows: n, _p: PhantomData };
+        let rows = trace(n, F::ZERO, F::ONE);
+        let pis = [F::ZERO, F::ONE, rows[n - 1][1]];
+        let t = trace_rows_to_poly_values(rows);
+        let proof = match catch_unwind(AssertUnwindSafe(|| prove::<F, C, Fib<F, D>, D>(stark, &config, t, &pis, Some(vparams.clone()), &mut TimingTree::default()))) {
+            Ok(Ok(p)) => p, _ => { bad.push(format!("{n} rows, verifier degree 2^{vbits}: honest proving failed")); continue; } };
+        let v = |p: StarkProofWithPublicInputs<F, C, D>| match catch_unwind(AssertUnwindSafe(|| verify_stark_proof(stark, p, &config, Some(vparams.clone())))) { Ok(Ok(())) => "ACCEPTED", Ok(Err(_)) => "rejected", Err(_) => "PANICKED" };
+        cases += 1; let o = v(proof.clone()); if o != "ACCEPTED" { bad.push(format!("{n} rows, verifier degree 2^{vbits}: honest proof {o}")); continue; }
+        let len0 = proof.proof.opening_proof.final_poly.coeffs.len();
+        for new_len in [0usize, len0.saturating_sub(1), len0 + 1, padded_len, padded_len + 1, 4 * padded_len] {
+            if new_len == len0 { continue; }
+            let mut p2 = proof.clone();
+            let filler = p2.proof.opening_proof.final_poly.coeffs[0];
+            p2.proof.opening_proof.final_poly.coeffs.resize(new_len, filler);
+            cases += 1; let o = v(p2); if o != "rejected" { bad.push(format!("{n} rows, verifier degree 2^{vbits}: proof with a {new_len}-coefficient final polynomial (honest {len0}, padded {padded_len}) -> {o}")); }
+        }
+        if !proof.proof.opening_proof.commit_phase_merkle_caps.is_empty() { let mut p2 = proof.clone(); p2.proof.opening_proof.commit_phase_merkle_caps.clear(); cases += 1; let o = v(p2); if o != "rejected" { bad.push(format!("{n} rows, verifier degree 2^{vbits}: proof without commit-phase caps -> {o}")); } }
+        { let mut p2 = proof.clone(); let c = p2.proof.trace_cap.clone(); p2.proof.opening_proof.commit_phase_merkle_caps.push(c); cases += 1; let o = v(p2); if o != "rejected" { bad.push(format!("{n} rows, verifier degree 2^{vbits}: proof with a surplus commit-phase cap -> {o}")); } }
+        { let mut p2 = proof.clone(); p2.proof.opening_proof.query_round_proofs.pop(); cases += 1; let o = v(p2); if o != "rejected" { bad.push(format!("{n} rows, verifier degree 2^{vbits}: proof with a query round missing -> {o}")); } }
+        { let mut p2 = proof.clone(); p2.public_inputs.pop(); cases += 1; let o = v(p2); if o != "rejected" { bad.push(format!("{n} rows, verifier degree 2^{vbits}: proof with a public input missing -> {o}")); } }
+    }
     // a STARK without constraints has no quotient: a proof that nevertheless carries an (empty) quotient opening vector, or a quotient cap, is malformed
     {
         let config = StarkConfig::standard_fast_config();
@@ -423,6 +449,34 @@ fn c04_stark_transcript() {
                 let Some(c2) = chal(&p2, &config) else { continue; };
                 for g in 2..6 { if c2[g] == b2[g] && !b2[g].is_empty() { bad.push(format!("altered {what}: challenge group {g} ({}) is unchanged", ["alphas", "zeta", "fri_alpha", "betas", "pow response", "query indices"][g])); break; } }
             }
+        }
+    }
+    // the auxiliary commitment (lookup helpers / cross-table-lookup Zs) precedes alphas, zeta and every FRI challenge, both when the lookup challenges are
+    // drawn from this transcript and when the caller of a multi-table system supplies them
+    {
+        use crate::lookup::{GrandProductChallenge, GrandProductChallengeSet};
+        let supplied = GrandProductChallengeSet { challenges: (0..config.num_challenges).map(|i| GrandProductChallenge { beta: F::from_canonical_u64(11 + i as u64), gamma: F::from_canonical_u64(5 + 2 * i as u64) }).collect() };
+        let mut with_aux = proof.clone();
+        with_aux.proof.auxiliary_polys_cap = Some(with_aux.proof.trace_cap.clone());
+        for (mode, set) in [("drawn", None), ("supplied by the caller", Some(&supplied))] {
+            let chal2 = |p: &StarkProofWithPublicInputs<F, C, D>| -> Option<Vec<Vec<u64>>> {
+                catch_unwind(AssertUnwindSafe(|| {
+                    let mut ch = Challenger::<F, PoseidonHash>::new();
+                    let c = p.get_challenges(&stark, &mut ch, set, None, false, &config, None);
+                    let ext = |e: FE| { let a: [F; D] = e.to_basefield_array(); a.iter().map(|x| x.to_canonical_u64()).collect::<Vec<u64>>() };
+                    vec![c.stark_alphas.iter().map(|x| x.to_canonical_u64()).collect(), ext(c.stark_zeta), ext(c.fri_challenges.fri_alpha), vec![c.fri_challenges.fri_pow_response.to_canonical_u64()], c.fri_challenges.fri_query_indices.iter().map(|&i| i as u64).collect()]
+                })).ok()
+            };
+            let Some(b2) = chal2(&with_aux) else { continue; };
+            let ncap = with_aux.proof.trace_cap.0.len();
+            for (entry, elt) in [(0usize, 0usize), (ncap - 1, 3), (ncap / 2, 1)] {
+                let mut p2 = with_aux.clone(); p2.proof.auxiliary_polys_cap.as_mut().unwrap().0[entry].elements[elt] += F::ONE;
+                cases += 1;
+                let Some(c2) = chal2(&p2) else { continue; };
+                for g in 0..5 { if c2[g] == b2[g] { bad.push(format!("lookup challenges {mode}: altered auxiliary cap entry {entry}: challenge group {g} ({}) is unchanged", ["alphas", "zeta", "fri_alpha", "pow response", "query indices"][g])); break; } }
+            }
+            { let mut p2 = with_aux.clone(); p2.proof.auxiliary_polys_cap = None; cases += 1;
+              if let Some(c2) = chal2(&p2) { if c2[0] == b2[0] || c2[1] == b2[1] { bad.push(format!("lookup challenges {mode}: auxiliary cap removed: alphas / zeta unchanged")); } } }
         }
     }
     // the FRI reduction strategy, with its parameters, is part of the statement: configurations that differ only there must not share challenges
